@@ -587,3 +587,119 @@ func TestRealClock(t *testing.T) {
 		t.Skipf("inconclusive: the child process gave no verdict (%v): %s", err, text)
 	}
 }
+
+// ---- a handler that outlives its window while the key is used in the next one ----------------------------------------
+//
+// Fixed window, skip option on, one key "a": k requests are admitted, the last of them belongs to the skipped class and is
+// slow - while its handler runs, the window ends (virtual clock) and n further requests for "a" arrive (nested: served by
+// the same app from inside the handler) and are counted in the new window. Then the slow handler returns: its hit belongs
+// to a window that is over, nothing is to be given back. Oracle, all in the new window: a fresh key "b" gets exactly Limit
+// of Limit+1 requests through (other keys are unaffected), and "a" gets exactly Limit-n more (its n hits still count).
+
+type RollCase struct {
+	Store      string // memory | vk
+	Limit      int
+	SkipOK     bool // else SkipFailedRequests
+	Before     int  // admitted requests of "a" before the slow one (0..Limit-1)
+	Nested     int  // requests for "a" in the new window while the slow handler runs (1..Limit)
+	ViaErr     bool
+	OtherFirst bool // the fresh key is used before "a" is used again
+}
+
+func checkRoll(c RollCase) vk.Verdict {
+	clockMu.Lock()
+	defer clockMu.Unlock()
+	vk.SetNow(6_000_000)
+	var st *vk.Storage
+	if c.Store != "memory" {
+		st = vk.NewStorage()
+	}
+	var app *fiber.App
+	ran := map[string]int{}
+	nestedRan := 0
+	app = newLimiter(Case{Algo: "fixed", Exp: 10, Max: c.Limit, SkipOK: c.SkipOK, SkipFail: !c.SkipOK}, st, func(ctx fiber.Ctx) {
+		ran[ctx.Query("k")]++
+		if ctx.Query("nest") != "" {
+			n, _ := strconv.Atoi(ctx.Query("nest"))
+			vk.Advance(11) // the window of this request is over
+			for j := 0; j < n; j++ {
+				before := ran["a"]
+				vk.Do(app, "GET", fmt.Sprintf("/?k=a&lim=%d&st=%d", c.Limit, countedStatus(c)))
+				if ran["a"] > before {
+					nestedRan++
+				}
+			}
+		}
+	})
+	app.Handler()
+	via := 0
+	if c.ViaErr {
+		via = 1
+	}
+	for j := 0; j < c.Before; j++ {
+		vk.Do(app, "GET", fmt.Sprintf("/?k=a&lim=%d&st=%d", c.Limit, countedStatus(c)))
+	}
+	if ran["a"] != c.Before {
+		return vk.Failf("%+v: %d of the first %d requests for key a were admitted", c, ran["a"], c.Before)
+	}
+	vk.Do(app, "GET", fmt.Sprintf("/?k=a&lim=%d&st=%d&viaerr=%d&nest=%d", c.Limit, skippedStatus(c), via, c.Nested))
+	if nestedRan != c.Nested {
+		return vk.Failf("%+v: %d of the %d requests for key a that arrived in the new window (while the slow handler of the old one was still running) were admitted, limit %d", c, nestedRan, c.Nested, c.Limit)
+	}
+	useOther := func() string {
+		before := ran["b"]
+		for j := 0; j <= c.Limit; j++ {
+			vk.Do(app, "GET", fmt.Sprintf("/?k=b&lim=%d&st=%d", c.Limit, countedStatus(c)))
+		}
+		if got := ran["b"] - before; got != c.Limit {
+			return fmt.Sprintf("%+v: after the slow handler of key a returned, %d of %d requests for the fresh key b were admitted, want %d (other keys are unaffected)", c, got, c.Limit+1, c.Limit)
+		}
+		return ""
+	}
+	useA := func() string {
+		before := ran["a"]
+		for j := 0; j < c.Limit; j++ {
+			vk.Do(app, "GET", fmt.Sprintf("/?k=a&lim=%d&st=%d", c.Limit, countedStatus(c)))
+		}
+		if got, want := ran["a"]-before, c.Limit-c.Nested; got != want {
+			return fmt.Sprintf("%+v: key a had %d hits in its new window when the slow handler (whose hit belongs to the window before) returned; of %d further requests %d were admitted, want %d", c, c.Nested, c.Limit, got, want)
+		}
+		return ""
+	}
+	steps := []func() string{useA, useOther}
+	if c.OtherFirst {
+		steps = []func() string{useOther, useA}
+	}
+	for _, f := range steps {
+		if msg := f(); msg != "" {
+			return vk.Failf("%s", msg)
+		}
+	}
+	return vk.Verdict{NonTrivial: true, Classes: []string{"store:" + c.Store, fmt.Sprintf("skipok:%v", c.SkipOK)}}
+}
+
+// countedStatus: a status that is NOT in the skipped class (the hit stays); skippedStatus: one that is.
+func countedStatus(c RollCase) int {
+	if c.SkipOK {
+		return 500
+	}
+	return 200
+}
+
+func skippedStatus(c RollCase) int {
+	if c.SkipOK {
+		return 200
+	}
+	return 500
+}
+
+var propRoll = vk.Register(&vk.Prop[RollCase]{Property: property, Name: "slowroll", Check: checkRoll, Quick: 400, Thorough: 2000,
+	Gen: func(t *rapid.T) RollCase {
+		c := RollCase{Store: rapid.SampledFrom([]string{"memory", "memory", "vk"}).Draw(t, "store"), Limit: rapid.IntRange(1, 4).Draw(t, "limit"), SkipOK: rapid.Bool().Draw(t, "skipok"),
+			ViaErr: rapid.Bool().Draw(t, "viaerr"), OtherFirst: rapid.Bool().Draw(t, "otherfirst")}
+		c.Before = rapid.IntRange(0, c.Limit-1).Draw(t, "before")
+		c.Nested = rapid.IntRange(1, c.Limit).Draw(t, "nested")
+		return c
+	}})
+
+func TestSlowRoll(t *testing.T) { propRoll.Run(t) }
